@@ -34,8 +34,9 @@ Section Node.
   Variable selected : list (list N) -> bool.
   Hypothesis Hsel : forall p, selected p = true.
   Variable sdof : N -> dent.
+  Variable S : Prop.              (* exact-partition mode, see CopyLinkP.v *)
   Notation Inv := (Inv o).
-  Notation Lk := (Lk o ms multi sdof).
+  Notation Lk := (Lk o ms multi sdof S).
   Notation touch := (touch o).
   Notation copied := (copied o ms multi).
   Notation new_entry := (new_entry o ms multi).
@@ -71,7 +72,8 @@ Section Node.
         end
       else if negb include then ok st1
       else
-        st2 <~ ensure_empty_file_target target st1 ;;
+        st2 <~ ensure_empty_file_target target
+                 (match tfi with Some _ => forget target st1 | None => st1 end) ;;
         st3 <~ (if is_reg sd then copy_regular o multi ino sd target st2
                 else if is_lnk sd then sys (k_symlink target (d_target sd) (c_fs st2)) st2
                 else copy_device o sd target st2) ;;
@@ -198,14 +200,13 @@ Section Node.
     (exists P a, T = P ++ [a] /\ x_isdir (X P) = true).
 
   Definition node_ok (n : snode) : Prop :=
-    forall sc T ow st X, Inv (c_fs st) X -> Lk (c_fs st) X (c_imap st) -> PC T (c_imap st) ->
+    forall sc T ow st X, Inv (c_fs st) X -> Lk (c_fs st) X (c_imap st) -> (S -> PC T (c_imap st)) ->
       tok X T (sdent n) -> nc X T n ->
     exists st', copy_node o ms multi selected n sc T ow st = (st', None) /\
                 Inv (c_fs st') (res n T (negb ow) X) /\
                 Lk (c_fs st') (res n T (negb ow) X) (c_imap st') /\
                 IM (c_imap st) (c_imap st') T /\
-                c_notifs st' = rev (node_notifs X (negb ow) T n) ++ c_notifs st /\
-                c_stale st' = c_stale st.
+                c_notifs st' = rev (node_notifs X (negb ow) T n) ++ c_notifs st.
 
   (* every multiply-linked regular file of the tree carries the dentry [sdof] gives for its inode *)
   Fixpoint cons_s (n : snode) {struct n} : Prop :=
@@ -228,25 +229,34 @@ Section Node.
   Proof. intros s l i H. auto. Qed.
 
   (* ---- removeTargetIfNeeded ---- *)
+  Lemma forget_fs T st : c_fs (forget T st) = c_fs st. Proof. reflexivity. Qed.
+  Lemma forget_imap T st : c_imap (forget T st) = imap_forget T (c_imap st). Proof. reflexivity. Qed.
+  Lemma forget_notifs T st : c_notifs (forget T st) = c_notifs st. Proof. reflexivity. Qed.
+
   Lemma step_remove sd P a st X :
-    Inv (c_fs st) X -> Lk (c_fs st) X (c_imap st) -> PC (P ++ [a]) (c_imap st) -> x_isdir (X P) = true ->
+    Inv (c_fs st) X -> Lk (c_fs st) X (c_imap st) -> (S -> PC (P ++ [a]) (c_imap st)) -> x_isdir (X P) = true ->
     let T := P ++ [a] in
     let removed := o_replace o && match X T with Some e => negb (is_dir sd && is_dir (x_d e)) | None => false end in
-    exists fs1, remove_target_if_needed o T sd (lstat (c_fs st) T) st = (with_fs st fs1, None) /\
-                Inv fs1 (if removed then touch P (xrm T X) else X) /\
-                Lk fs1 (if removed then touch P (xrm T X) else X) (c_imap st).
+    exists st1, remove_target_if_needed o T sd (lstat (c_fs st) T) st = (st1, None) /\
+                Inv (c_fs st1) (if removed then touch P (xrm T X) else X) /\
+                Lk (c_fs st1) (if removed then touch P (xrm T X) else X) (c_imap st1) /\
+                IM (c_imap st) (c_imap st1) T /\ (S -> PC T (c_imap st1)) /\ c_notifs st1 = c_notifs st.
   Proof.
     intros I L Hpc HP T removed. unfold remove_target_if_needed, removed.
     pose proof (inv_lstat _ _ _ T I) as HL.
-    destruct (o_replace o); cbn [negb andb].
-    - destruct (lstat (c_fs st) T) as [td|], (X T) as [e|] eqn:EX; try contradiction.
-      + rewrite (dm_is_dir _ _ _ HL). destruct (is_dir sd && is_dir (x_d e)); cbn [negb].
-        * exists (c_fs st). destruct st; auto.
-        * eexists. split; [reflexivity|]. split; [eapply inv_k_remove_all; eauto|].
-          cbn [with_fs c_fs]. apply (Lk_removed o ms multi sdof (c_fs st)); auto.
-          intro q. apply k_remove_all_names. destruct (inv_x_some _ _ _ _ _ I EX) as (i & Hi & _). fold T. congruence.
-      + exists (c_fs st). destruct st; auto.
-    - exists (c_fs st). destruct st; auto.
+    assert (Same : exists st1, (st, @None err) = (st1, None) /\ Inv (c_fs st1) X /\ Lk (c_fs st1) X (c_imap st1) /\
+                     IM (c_imap st) (c_imap st1) T /\ (S -> PC T (c_imap st1)) /\ c_notifs st1 = c_notifs st).
+    { exists st. split; [auto|]. split; [auto|]. split; [auto|]. split; [intros s0 l i H; auto|auto]. }
+    destruct (o_replace o); cbn [negb andb]; auto.
+    destruct (lstat (c_fs st) T) as [td|], (X T) as [e|] eqn:EX; try contradiction; auto.
+    rewrite (dm_is_dir _ _ _ HL). destruct (is_dir sd && is_dir (x_d e)); cbn [negb]; auto.
+    eexists. split; [reflexivity|]. cbn [with_fs c_fs c_imap c_notifs]. rewrite forget_fs, forget_imap, forget_notifs.
+    pose proof (lk_nodup _ _ _ _ _ _ _ _ L) as Hnd.
+    split; [eapply inv_k_remove_all; eauto|]. split; [|split; [apply IM_forget; auto|split; [intros _; apply PC_forget; auto|auto]]].
+    apply (Lk_removed o ms multi sdof S (c_fs st)); auto.
+    - apply Lk_forget; auto.
+    - apply PC_forget; auto.
+    - intro q. apply k_remove_all_names. destruct (inv_x_some _ _ _ _ _ I EX) as (i & Hi & _). fold T. congruence.
   Qed.
   Lemma bind_assoc (m : R) (f g : cstate -> R) : bind (bind m f) g = bind m (fun x => bind (f x) g).
   Proof. destruct m as [s [e|]]; reflexivity. Qed.
@@ -303,7 +313,7 @@ Section Node.
     destruct (meta_phase o ms sd T (with_fs st2 fs3) _ Hn3) as (fs5 & E5 & V5).
     rewrite <- (bind_assoc (copy_file_info o ms sd T (with_fs st2 fs3)) (fun x => copy_xattrs sd T x)
                   (fun x => ok (notify T false x))).
-    rewrite E5. cbn [bind ok with_fs c_fs c_imap c_notifs c_stale].
+    rewrite E5. cbn [bind ok with_fs c_fs c_imap c_notifs c_split].
     exists fs5. split; [reflexivity|]. cbn [with_fs c_fs] in V5. split; [|split].
     - eapply Inv_fs_ext; [apply fs_eqv_sym; exact V5|].
       eapply Inv_ext; [intro q; symmetry; apply xupd_xupd|].
@@ -335,8 +345,8 @@ Section Node.
       Lk fs5 (xupd (P ++ [a]) (Some (new_entry s (P ++ [a]))) (touch P X2)) (c_imap st2).
   Proof.
     intros Hwf Hreg Hmul Hsd I L HT HP Hrec. set (T := P ++ [a]) in *. set (sd := sdent s) in *.
-    destruct (lk_rec _ _ _ _ _ _ _ L _ _ _ Hrec) as (Hl & _ & _).
-    destruct (lk_mem _ _ _ _ _ _ _ L _ _ _ _ Hrec Hl) as (el & El1 & El2 & El3 & El4 & El5).
+    destruct (lk_rec _ _ _ _ _ _ _ _ L _ _ _ Hrec) as (Hl & _ & _).
+    destruct (lk_mem _ _ _ _ _ _ _ _ L _ _ _ _ Hrec Hl) as (el & El1 & El2 & El3 & El4 & El5).
     destruct (i_some _ _ _ I _ _ Hl) as (el' & El1' & Hdm & _). rewrite El1 in El1'. inversion El1'; subst el'.
     assert (Hnd : is_dir (inodes (c_fs st2) id) = false).
     { rewrite (dm_is_dir _ _ _ Hdm), El3. apply ne_d_nondir. rewrite <- Hsd. auto. }
@@ -346,25 +356,25 @@ Section Node.
     assert (HdmT : dm o (inodes (c_fs st2) id) eT).
     { apply (dm_shape _ el); auto; try (rewrite El4; reflexivity); try (rewrite El5; reflexivity). congruence. }
     destruct (inv_k_link o _ _ P a l id eT I HT HP Hl Hnd HdmT) as (fs3 & E3 & Hn3 & I3); eauto.
-    { intros p e0 Hp He0. destruct (lk_mem _ _ _ _ _ _ _ L _ _ _ _ Hrec Hp) as (e1 & A1 & A2 & _).
+    { intros p e0 Hp He0. destruct (lk_mem _ _ _ _ _ _ _ _ L _ _ _ _ Hrec Hp) as (e1 & A1 & A2 & _).
       rewrite He0 in A1. inversion A1; subst. eauto. }
     fold T in E3, Hn3, I3. rewrite E3. cbn [sys]. rewrite bind_ok.
     assert (HnT0 : names (c_fs st2) T = None) by (eapply inv_x_none; eauto).
     assert (L3 : Lk fs3 (xupd T (Some eT) (touch P X2)) (c_imap st2)).
-    { eapply (Lk_link o ms multi sdof (c_fs st2)); eauto. }
+    { eapply (Lk_link o ms multi sdof S (c_fs st2)); eauto. }
     assert (HnT3 : names fs3 T = Some id) by (rewrite Hn3, path_eqb_refl; auto).
     destruct (meta_phase o ms sd T (with_fs st2 fs3) _ HnT3) as (fs5 & E5 & V5).
     rewrite <- (bind_assoc (copy_file_info o ms sd T (with_fs st2 fs3)) (fun x => copy_xattrs sd T x)
                   (fun x => ok (notify T false x))).
-    rewrite E5. cbn [bind ok with_fs c_fs c_imap c_notifs c_stale].
+    rewrite E5. cbn [bind ok with_fs c_fs c_imap c_notifs c_split].
     exists fs5. split; [reflexivity|]. cbn [with_fs c_fs] in V5. split.
     - eapply Inv_fs_ext; [apply fs_eqv_sym; exact V5|].
       eapply (inv_upd o fs3 _ _ id (finfo o ms sd) I3).
       + apply ftype_finfo.
       + intros p e Hp He. exists e. split; auto. split; auto.
         assert (Hrec3 : names fs3 l = Some id).
-        { destruct (lk_rec _ _ _ _ _ _ _ L3 _ _ _ Hrec); auto. }
-        destruct (lk_mem _ _ _ _ _ _ _ L3 _ _ _ _ Hrec Hp) as (e1 & A1 & A2 & A3 & A4 & A5).
+        { destruct (lk_rec _ _ _ _ _ _ _ _ L3 _ _ _ Hrec); auto. }
+        destruct (lk_mem _ _ _ _ _ _ _ _ L3 _ _ _ _ Hrec Hp) as (e1 & A1 & A2 & A3 & A4 & A5).
         rewrite He in A1. inversion A1; subst e1.
         destruct (i_some _ _ _ I3 _ _ Hp) as (e2 & B1 & B2 & _). rewrite He in B1. inversion B1; subst e2.
         assert (Hxe : x_d e = ne_d o ms sd) by (rewrite A3, <- Hsd; auto).
@@ -376,6 +386,9 @@ Section Node.
     - eapply Lk_names_ext; [|exact L3]. intro q. rewrite (fe_names _ _ V5). reflexivity.
   Qed.
 
+  Lemma IM_trans im1 im2 im3 T : IM im1 im2 T -> IM im2 im3 T -> IM im1 im3 T.
+  Proof. intros H1 H2 s l i H. destruct (H2 _ _ _ H) as [H3|H3]; auto. Qed.
+
   Lemma copy_file_ok nm ino sd :
     wf_dent sd -> is_dir sd = false -> (is_reg sd = true -> multi ino = true -> sd = sdof ino) ->
     node_ok (SNode nm ino sd []).
@@ -383,7 +396,7 @@ Section Node.
     intros Hwf Hd Hcons sc T0 ow st X I L0 Hpc Htok Hnc. cbn [sdent] in Htok.
     destruct Htok as [(_ & Hd' & _)|(P & a & -> & HP)]; [congruence|].
     rewrite copy_node_eq. cbv zeta. rewrite include_true, Hd. cbn [negb].
-    destruct (step_remove sd P a st X I L0 Hpc HP) as (fs1 & E1 & I1 & L1). rewrite E1. cbn [bind].
+    destruct (step_remove sd P a st X I L0 Hpc HP) as (st1 & E1 & I1 & L1 & M1 & Hpc1 & N1). rewrite E1. cbn [bind].
     set (n := SNode nm ino sd []) in *. set (T := P ++ [a]) in *.
     set (removed := o_replace o && match X T with Some e => negb (is_dir sd && is_dir (x_d e)) | None => false end) in *.
     set (X1 := if removed then touch P (xrm T X) else X) in *.
@@ -405,19 +418,35 @@ Section Node.
     assert (F4 : forall q, strip_prefix T q = None -> touch P X1 q = touch P X q).
     { intros q Hq. unfold X1. destruct removed; auto. rewrite touch_idem.
       apply touch_ext; apply xrm_unrel; auto. apply parent_unrel. }
+    assert (F5 : forall e, X1 T = Some e -> lstat (c_fs st) T <> None).
+    { intros e. unfold X1. destruct removed.
+      - rewrite touch_other by auto. rewrite xrm_self. discriminate.
+      - intro HX. pose proof (inv_lstat _ _ _ T I) as HL. rewrite HX in HL. destruct (lstat (c_fs st) T); [discriminate|contradiction]. }
     clearbody X1. clear removed.
-    (* ensureEmptyFileTarget *)
+    (* forgetLinkSources + ensureEmptyFileTarget *)
+    set (st1' := match lstat (c_fs st) T with Some _ => forget T st1 | None => st1 end).
+    pose proof (lk_nodup _ _ _ _ _ _ _ _ L1) as Hnd1.
+    assert (I1' : Inv (c_fs st1') X1) by (unfold st1'; destruct (lstat (c_fs st) T); auto).
+    assert (L1' : Lk (c_fs st1') X1 (c_imap st1')).
+    { unfold st1'. destruct (lstat (c_fs st) T); auto. rewrite forget_fs, forget_imap. apply Lk_forget; auto. }
+    assert (M1' : IM (c_imap st) (c_imap st1') T).
+    { unfold st1'. destruct (lstat (c_fs st) T); auto. rewrite forget_imap. eapply IM_trans; [exact M1|apply IM_forget; auto]. }
+    assert (N1' : c_notifs st1' = c_notifs st) by (unfold st1'; destruct (lstat (c_fs st) T); auto).
+    assert (P1' : forall e, X1 T = Some e -> PC T (c_imap st1')).
+    { intros e He. unfold st1'. destruct (lstat (c_fs st) T) eqn:E; [|exfalso; eapply F5; eauto].
+      rewrite forget_imap. apply PC_forget; auto. }
+    clearbody st1'.
     set (X2 := match X1 T with Some _ => touch P (xrm T X1) | None => X1 end).
-    assert (E2 : exists fs2, ensure_empty_file_target T (with_fs st fs1) = (with_fs st fs2, None) /\ Inv fs2 X2 /\
-                             Lk fs2 X2 (c_imap st)).
-    { unfold ensure_empty_file_target. pose proof (inv_lstat _ _ _ T I1) as HL. cbn [with_fs c_fs]. unfold X2.
+    assert (E2 : exists st2, ensure_empty_file_target T st1' = (st2, None) /\ Inv (c_fs st2) X2 /\
+                             Lk (c_fs st2) X2 (c_imap st2) /\ IM (c_imap st) (c_imap st2) T /\ c_notifs st2 = c_notifs st).
+    { unfold ensure_empty_file_target. pose proof (inv_lstat _ _ _ T I1') as HL. unfold X2.
       destruct F2 as [F2|(e & F2 & Fd)]; rewrite F2 in *.
-      - destruct (lstat fs1 T); [contradiction|]. exists fs1. split; auto.
-      - destruct (lstat fs1 T) as [td|]; [|contradiction]. rewrite (dm_is_dir _ _ _ HL), Fd.
-        destruct (inv_k_unlink o _ _ P a e I1 F2 Fd F1) as (fs2 & U1 & U2 & U3). fold T in U1, U2, U3.
-        rewrite U1. exists fs2. split; auto. split; auto.
-        apply (Lk_removed o ms multi sdof fs1); auto. }
-    destruct E2 as (fs2 & E2 & I2 & L2). rewrite E2. cbn [bind].
+      - destruct (lstat (c_fs st1') T); [contradiction|]. exists st1'. split; auto.
+      - destruct (lstat (c_fs st1') T) as [td|]; [|contradiction]. rewrite (dm_is_dir _ _ _ HL), Fd.
+        destruct (inv_k_unlink o _ _ P a e I1' F2 Fd F1) as (fs2 & U1 & U2 & U3). fold T in U1, U2, U3.
+        rewrite U1. exists (with_fs st1' fs2). cbn [sys with_fs c_fs c_imap c_notifs]. split; auto. split; auto. split; auto.
+        apply (Lk_removed o ms multi sdof S (c_fs st1')); eauto. }
+    destruct E2 as (st2 & E2 & I2 & L2 & M2 & N2). rewrite E2. cbn [bind].
     assert (G1 : x_isdir (X2 P) = true).
     { unfold X2. destruct (X1 T); auto. rewrite touch_isdir, xrm_unrel; auto. apply parent_unrel. }
     assert (G2 : X2 T = None).
@@ -432,49 +461,45 @@ Section Node.
     destruct (type_facts sd) as (TR & TL & _).
     set (X5 := xupd T (Some (new_entry n T)) (touch P X2)).
     assert (E3 : exists st5,
-      (st3 <~ (if is_reg sd then copy_regular o multi ino sd T (with_fs st fs2)
-               else if is_lnk sd then sys (k_symlink T (d_target sd) (c_fs (with_fs st fs2))) (with_fs st fs2)
-               else copy_device o sd T (with_fs st fs2)) ;;
+      (st3 <~ (if is_reg sd then copy_regular o multi ino sd T st2
+               else if is_lnk sd then sys (k_symlink T (d_target sd) (c_fs st2)) st2
+               else copy_device o sd T st2) ;;
        st4 <~ copy_file_info o ms sd T st3 ;; st5 <~ copy_xattrs sd T st4 ;; ok (notify T false st5))
       = (notify T false st5, None) /\
-      Inv (c_fs st5) X5 /\ Lk (c_fs st5) X5 (c_imap st5) /\ IM (c_imap st) (c_imap st5) T /\
-      c_notifs st5 = c_notifs st /\ c_stale st5 = c_stale st).
+      Inv (c_fs st5) X5 /\ Lk (c_fs st5) X5 (c_imap st5) /\ IM (c_imap st2) (c_imap st5) T /\
+      c_notifs st5 = c_notifs st2).
     { pose proof Hwf as Hwf'. destruct Hwf' as (Hz & Hl & Ht & Hx).
-      assert (HnT2 : names fs2 T = None) by (eapply inv_x_none; eauto).
+      assert (HnT2 : names (c_fs st2) T = None) by (eapply inv_x_none; eauto).
       (* a fresh inode with a per-path key *)
       assert (Fresh : (is_reg sd && multi ino) = false ->
                 forall fs5,
-                  Inv fs5 X5 -> (forall q, q <> T -> names fs5 q = names fs2 q) -> names fs5 T = Some (next fs2) ->
-                  Inv (c_fs (with_fs st fs5)) X5 /\ Lk (c_fs (with_fs st fs5)) X5 (c_imap (with_fs st fs5)) /\
-                  IM (c_imap st) (c_imap (with_fs st fs5)) T /\
-                  c_notifs (with_fs st fs5) = c_notifs st /\ c_stale (with_fs st fs5) = c_stale st).
-      { intros Hk fs5 Q2 Q3 Q4. cbn [with_fs c_fs c_imap c_notifs c_stale].
+                  Inv fs5 X5 -> (forall q, q <> T -> names fs5 q = names (c_fs st2) q) -> names fs5 T = Some (next (c_fs st2)) ->
+                  Inv (c_fs (with_fs st2 fs5)) X5 /\ Lk (c_fs (with_fs st2 fs5)) X5 (c_imap (with_fs st2 fs5)) /\
+                  IM (c_imap st2) (c_imap (with_fs st2 fs5)) T /\
+                  c_notifs (with_fs st2 fs5) = c_notifs st2).
+      { intros Hk fs5 Q2 Q3 Q4. cbn [with_fs c_fs c_imap c_notifs].
         split; auto. split; [|split; [apply IM_refl|auto]].
-        apply (Lk_new o ms multi sdof fs2); auto. rewrite new_entry_key. cbn [sdent sino n]. rewrite Hk. auto. }
+        apply (Lk_new o ms multi sdof S (c_fs st2)); auto. rewrite new_entry_key. cbn [sdent sino n]. rewrite Hk. auto. }
       destruct (is_reg sd) eqn:Ereg; [|destruct (is_lnk sd) eqn:Elnk].
       - destruct (TR eq_refl) as (A1 & A2 & A3). unfold copy_regular.
         destruct (multi ino) eqn:Emul.
-        + cbn [with_fs c_fs c_imap c_notifs c_stale].
-          destruct (imap_find ino (c_imap st)) as [[l id]|] eqn:Eim.
-          * (* link to the recorded first copy *)
-            destruct (lk_rec _ _ _ _ _ _ _ L2 _ _ _ Eim) as (Hl2 & _ & _).
-            rewrite Hl2, N.eqb_refl. cbn [negb]. rewrite orb_false_r.
-            set (st2' := {| c_fs := fs2; c_imap := c_imap st; c_notifs := c_notifs st; c_stale := c_stale st |}).
-            destruct (file_tail_link n P a st2' X2 l id) as (fs5 & Q1 & Q2 & Q3); cbn [sdent sino n st2' c_fs c_imap]; auto.
-            fold T in Q1, Q2, Q3. cbn [sdent n] in Q1. change (c_fs st2') with fs2 in Q1. rewrite Q1. eexists. split; [reflexivity|].
-            cbn [with_fs c_fs c_imap c_notifs c_stale st2']. split; auto. split; auto. split; [apply IM_refl|auto].
+        + destruct (imap_find ino (c_imap st2)) as [[l id]|] eqn:Eim.
+          * (* link to the recorded copy *)
+            destruct (file_tail_link n P a st2 X2 l id) as (fs5 & Q1 & Q2 & Q3); cbn [sdent sino n]; auto.
+            fold T in Q1, Q2, Q3. cbn [sdent n] in Q1. rewrite Q1. eexists. split; [reflexivity|].
+            cbn [with_fs c_fs c_imap c_notifs]. split; auto. split; auto. split; [apply IM_refl|auto].
           * (* the first copy: recorded *)
             unfold k_create.
-            set (st2' := {| c_fs := fs2; c_imap := (ino, (T, next fs2)) :: c_imap st; c_notifs := c_notifs st; c_stale := c_stale st |}).
+            set (st2' := {| c_fs := c_fs st2; c_imap := (ino, (T, next (c_fs st2))) :: c_imap st2; c_notifs := c_notifs st2; c_split := c_split st2 |}).
             destruct (file_tail n P a (o_umask o) S_IFREG 438 0 [] (d_content sd) st2' X2) as (fs5 & Q1 & Q2 & Q3 & Q4);
               cbn [sdent n st2' c_fs]; auto; try (repeat split; auto; fail).
             -- intro; congruence.
             -- rewrite A2; auto.
             -- rewrite Ht; auto.
             -- rewrite Ereg; auto.
-            -- fold T in Q1, Q2, Q3, Q4. cbn [sdent n] in Q1. change (c_fs st2') with fs2 in Q1, Q3, Q4. rewrite Q1. eexists. split; [reflexivity|].
-               cbn [with_fs c_fs c_imap c_notifs c_stale st2']. split; auto. split; [|split; auto].
-               ++ apply (Lk_record o ms multi sdof fs2); auto.
+            -- fold T in Q1, Q2, Q3, Q4. cbn [sdent n] in Q1. change (c_fs st2') with (c_fs st2) in Q1, Q3, Q4. rewrite Q1. eexists. split; [reflexivity|].
+               cbn [with_fs c_fs c_imap c_notifs st2']. split; auto. split; [|split; auto].
+               ++ apply (Lk_record o ms multi sdof S (c_fs st2)); auto.
                   ** rewrite <- (Hcons eq_refl eq_refl). auto.
                   ** rewrite new_entry_key. cbn [sdent sino n]. rewrite Ereg, Emul. auto.
                   ** rewrite new_entry_d. cbn [sdent n]. rewrite <- (Hcons eq_refl eq_refl). auto.
@@ -482,7 +507,7 @@ Section Node.
                   ** intro H; inversion H; subst. right. apply is_prefix_true. exists []. rewrite app_nil_r. auto.
                   ** auto.
         + unfold k_create.
-          destruct (file_tail n P a (o_umask o) S_IFREG 438 0 [] (d_content sd) (with_fs st fs2) X2) as (fs5 & Q1 & Q2 & Q3 & Q4);
+          destruct (file_tail n P a (o_umask o) S_IFREG 438 0 [] (d_content sd) st2 X2) as (fs5 & Q1 & Q2 & Q3 & Q4);
             cbn [sdent n]; auto; try (repeat split; auto; fail).
           * intro; congruence.
           * rewrite A2; auto.
@@ -492,7 +517,7 @@ Section Node.
             eapply (Fresh (andb_false_r _)); eauto.
       - destruct (TL eq_refl) as (A1 & A2 & A3).
         unfold k_symlink.
-        destruct (file_tail n P a 0 S_IFLNK 511 0 (d_target sd) [] (with_fs st fs2) X2) as (fs5 & Q1 & Q2 & Q3 & Q4);
+        destruct (file_tail n P a 0 S_IFLNK 511 0 (d_target sd) [] st2 X2) as (fs5 & Q1 & Q2 & Q3 & Q4);
           cbn [sdent n]; auto; try (repeat split; auto; fail).
         + rewrite A2; auto.
         + rewrite Ereg; auto.
@@ -505,7 +530,7 @@ Section Node.
           - unfold andnot. rewrite land_ldiff_comm. fold (ftype sd). apply N.eqb_eq in Es. rewrite Es. reflexivity.
           - fold (ftype sd). apply N.eqb_neq in Hz. rewrite Hz. auto. }
         destruct (file_tail n P a (o_umask o) (if N.eqb (N.land mode S_IFMT) 0 then S_IFREG else N.land mode S_IFMT)
-                    (N.land mode allBits) (if is_dev sd then d_rdev sd else 0) [] [] (with_fs st fs2) X2) as (fs5 & Q1 & Q2 & Q3 & Q4);
+                    (N.land mode allBits) (if is_dev sd then d_rdev sd else 0) [] [] st2 X2) as (fs5 & Q1 & Q2 & Q3 & Q4);
           cbn [sdent n]; auto; try (repeat split; auto; fail).
         + destruct (N.eqb (N.land mode S_IFMT) 0); [reflexivity|apply land_idem2].
         + intro; congruence.
@@ -513,7 +538,7 @@ Section Node.
         + rewrite Ereg; auto.
         + fold T in Q1, Q2, Q3, Q4. cbn [sdent n] in Q1. rewrite Q1. eexists. split; [reflexivity|].
           eapply (Fresh eq_refl); eauto. }
-    destruct E3 as (st5 & E3 & I5 & L5 & M5 & N5 & S5). rewrite E3.
+    destruct E3 as (st5 & E3 & I5 & L5 & M5 & N5). rewrite E3.
     assert (EX : forall q, X5 q = res n T (negb ow) X q).
     { intro q. unfold X5, res. cbn [sdent n]. rewrite Hd. cbn [andb]. fold T.
       assert (Hpar : parent T = P) by apply parent_snoc. rewrite Hpar.
@@ -524,11 +549,11 @@ Section Node.
         unfold n. rewrite ov_below_file by auto. apply G3.
       + rewrite xupd_other by (apply unrel_ne; auto). rewrite G4 by auto. symmetry.
         apply touch_ext; [apply ov_unrel, parent_unrel|apply ov_unrel; auto]. }
-    eexists. split; [reflexivity|]. cbn [notify c_fs c_imap c_notifs c_stale].
+    eexists. split; [reflexivity|]. cbn [notify c_fs c_imap c_notifs].
     split; [eapply Inv_ext; [|exact I5]; intro q; symmetry; apply EX|].
     split; [eapply Lk_ext; [|exact L5]; intro q; symmetry; apply EX|].
-    split; auto. split; auto.
-    unfold n. cbn [node_notifs]. rewrite Hd, N5. reflexivity.
+    split; [eapply IM_trans; eauto|].
+    unfold n. cbn [node_notifs]. rewrite Hd, N5, N2. reflexivity.
   Qed.
 
   Lemma bind_ret s (k : cstate -> R) : bind (s, None) k = k s.
@@ -583,11 +608,11 @@ Section Node.
 
   Lemma kids_ok l : Forall node_ok l -> forall sc T st Xc,
     NoDup (map sname l) -> Inv (c_fs st) Xc -> Lk (c_fs st) Xc (c_imap st) ->
-    (forall k, In k l -> PC (T ++ [sname k]) (c_imap st)) -> x_isdir (Xc T) = true ->
+    (S -> forall k, In k l -> PC (T ++ [sname k]) (c_imap st)) -> x_isdir (Xc T) = true ->
     (forall k, In k l -> nc Xc (T ++ [sname k]) k) ->
     exists st', kids_loop sc T l st = (st', None) /\ Inv (c_fs st') (touch T (ovk l T Xc)) /\
       Lk (c_fs st') (touch T (ovk l T Xc)) (c_imap st') /\ IM (c_imap st) (c_imap st') T /\
-      c_notifs st' = rev (kids_notifs Xc T l) ++ c_notifs st /\ c_stale st' = c_stale st.
+      c_notifs st' = rev (kids_notifs Xc T l) ++ c_notifs st.
   Proof.
     induction 1 as [|k r Hk Hr IH]; intros sc T st Xc Hnd I L Hpc HT Hnc.
     - exists st. simpl. split; auto.
@@ -596,16 +621,16 @@ Section Node.
       split; [eapply Lk_ext; [exact E|apply Lk_touch; auto]|]. split; [apply IM_refl|auto].
     - simpl in Hnd. inversion Hnd as [|? ? Hni Hnd']; subst.
       rewrite kids_loop_cons.
-      destruct (Hk (sc ++ [sname k]) (T ++ [sname k]) true st Xc I L) as (st1 & E1 & I1 & L1 & M1 & N1 & S1).
-      { apply Hpc. left; auto. }
+      destruct (Hk (sc ++ [sname k]) (T ++ [sname k]) true st Xc I L) as (st1 & E1 & I1 & L1 & M1 & N1).
+      { intro HS. apply Hpc; auto. left; auto. }
       { right. exists T, (sname k). auto. }
       { apply Hnc. left; auto. }
       rewrite E1, bind_ret. cbn [negb] in I1, L1, N1.
       set (Xc' := res k (T ++ [sname k]) false Xc) in *.
       assert (Hoth : forall b r0, bytes_eqb (sname k) b = false -> Xc' (T ++ b :: r0) = Xc (T ++ b :: r0)).
       { intros b r0 Hb. apply res_kid_other; [apply below_ne|]. rewrite strip_snoc_below, Hb. auto. }
-      destruct (IH sc T st1 Xc') as (st2 & E2 & I2 & L2 & M2 & N2 & S2); auto.
-      { intros k2 Hin s l i Hrec. destruct (M1 _ _ _ Hrec) as [Hold|Hu].
+      destruct (IH sc T st1 Xc') as (st2 & E2 & I2 & L2 & M2 & N2); auto.
+      { intros HS k2 Hin s l i Hrec. destruct (M1 _ _ _ Hrec) as [Hold|Hu].
         - eapply Hpc; eauto. right; auto.
         - eapply prefix_disjoint; eauto. intro E. apply Hni. rewrite E. apply in_map. auto. }
       { unfold Xc'. rewrite res_T_isdir. auto. }
@@ -627,7 +652,7 @@ Section Node.
       exists st2. split; auto.
       split; [eapply Inv_ext; [exact EV|exact I2]|].
       split; [eapply Lk_ext; [exact EV|exact L2]|].
-      split; [eapply IM_sub; eauto|]. split; [|congruence].
+      split; [eapply IM_sub; eauto|].
       rewrite N2, N1. simpl kids_notifs. rewrite rev_app_distr, <- app_assoc.
       rewrite (kids_notifs_ext Xc' Xc). auto.
   Qed.
@@ -649,7 +674,7 @@ Section Node.
     let n := SNode nm ino sd kids in
     Forall node_ok kids -> NoDup (map sname kids) -> wf_dent sd -> is_dir sd = true ->
     (x_isdir (X T) = true \/ exists P a, T = P ++ [a]) ->
-    Inv (c_fs st2) X2 -> Lk (c_fs st2) X2 (c_imap st2) -> PC T (c_imap st2) ->
+    Inv (c_fs st2) X2 -> Lk (c_fs st2) X2 (c_imap st2) -> (S -> PC T (c_imap st2)) ->
     X2 T = Some e2 -> is_dir (x_d e2) = true ->
     (forall b r, X2 (T ++ b :: r) = X (T ++ b :: r)) ->
     (forall q, strip_prefix T q = None -> X2 q = res n T (negb ow) X q) ->
@@ -670,16 +695,15 @@ Section Node.
         else ok st4)) = (st', None) /\
       Inv (c_fs st') (res n T (negb ow) X) /\
       Lk (c_fs st') (res n T (negb ow) X) (c_imap st') /\ IM (c_imap st2) (c_imap st') T /\
-      c_notifs st' = rev (node_notifs X (negb ow) T n) ++ c_notifs st2 /\
-      c_stale st' = c_stale st2.
+      c_notifs st' = rev (node_notifs X (negb ow) T n) ++ c_notifs st2.
   Proof.
     intros n IH Hnd Hwf Hd HTok I2 L2 Hpc H2 Hd2 Hb Hu Hnc Hcr Hnew Hold.
     set (st3 := if true && (created || ow) then notify T true st2 else st2).
     assert (I3 : Inv (c_fs st3) X2) by (unfold st3; destruct (true && (created || ow)); auto).
     assert (L3 : Lk (c_fs st3) X2 (c_imap st3)) by (unfold st3; destruct (true && (created || ow)); auto).
     assert (M3 : c_imap st3 = c_imap st2) by (unfold st3; destruct (true && (created || ow)); auto).
-    destruct (kids_ok kids IH sc T st3 X2 Hnd I3 L3) as (st4 & E4 & I4 & L4 & M4 & N4 & S4).
-    { intros k Hin. rewrite M3. apply PC_kid; auto. }
+    destruct (kids_ok kids IH sc T st3 X2 Hnd I3 L3) as (st4 & E4 & I4 & L4 & M4 & N4).
+    { intros HS k Hin. rewrite M3. apply PC_kid; auto. }
     { rewrite H2. auto. }
     { intros k Hin Hr. rewrite (first_conflict_ext X2 X); [apply Hnc; auto|].
       intro r. rewrite <- app_assoc. apply Hb. }
@@ -692,7 +716,7 @@ Section Node.
     { rewrite (dm_is_dir _ _ _ Hm), touched_d. auto. }
     pose proof (dir_unique _ _ _ _ _ I4 Hi Hdi) as Hu4.
     assert (Hns : forall s, x_key (touched e2) <> KSrc s).
-    { intros s Hs. pose proof (lk_src_not_dir _ _ _ _ _ _ _ _ _ _ L4 H4 Hs) as Hx. rewrite touched_d in Hx. congruence. }
+    { intros s Hs. pose proof (lk_src_not_dir _ _ _ _ _ _ _ _ _ _ _ L4 H4 Hs) as Hx. rewrite touched_d in Hx. congruence. }
     set (e5 := copied n (X T) (negb ow) T).
     assert (EV : forall q, res n T (negb ow) X q = xupd T (Some e5) (touch T (ovk kids T X2)) q).
     { intro q. destruct (path_tri T q) as [->|[(b & r & ->)|Hq]].
@@ -709,14 +733,12 @@ Section Node.
       - eapply Inv_ext; [exact EV|eapply (inv_upd1 o _ _ T i f (touched e2) e5 I4 Hi Hu4 H4 Hft Hdm)].
         rewrite touched_key. auto.
       - eapply Lk_ext; [exact EV|].
-        eapply (Lk_upd o ms multi sdof (c_fs st4) _ _ _ T (touched e2) e5 L4); auto.
+        eapply (Lk_upd o ms multi sdof S (c_fs st4) _ _ _ T (touched e2) e5 L4); auto.
         intros s Hs. apply (Hns s). rewrite touched_key. congruence. }
     assert (Hnot : c_notifs st4 = rev (node_notifs X (negb ow) T n) ++ c_notifs st2).
     { rewrite N4. unfold n. rewrite node_notifs_dir by auto. rewrite rev_app_distr, <- app_assoc.
       rewrite (kids_notifs_ext X2 X). f_equal. unfold st3. rewrite Hcr.
       destruct ow, (x_isdir (X T)); reflexivity. }
-    assert (Hother : c_stale st4 = c_stale st2).
-    { rewrite S4. unfold st3. destruct (true && (created || ow)); auto. }
     destruct created eqn:Ecr.
     - (* created by this call *)
       destruct (Hnew eq_refl) as (A1 & A2 & A3 & A4 & A5 & A6).
@@ -725,7 +747,7 @@ Section Node.
       { unfold e5, CopySpec.copied. destruct (X T) as [e|]; auto. unfold x_isdir in Em. cbn [sdent n]. rewrite Em, andb_false_r. auto. }
       assert ((if ow then true else true) = true) as -> by (destruct ow; auto).
       destruct (meta_phase o ms sd T st4 i Hi) as (fs5 & Q1 & Q2). rewrite Q1.
-      eexists. split; [reflexivity|]. cbn [with_fs c_fs c_imap c_notifs c_stale].
+      eexists. split; [reflexivity|]. cbn [with_fs c_fs c_imap c_notifs].
       destruct (type_facts sd) as (_ & _ & TD). destruct (TD Hd) as (C1 & C2 & C3 & C4 & C5).
       destruct (Fin (finfo o ms sd)) as (F1 & F2).
       { apply ftype_finfo. }
@@ -750,7 +772,7 @@ Section Node.
       destruct Hm as (B1 & B2 & B3 & B4 & B5 & B6 & B7 & B8). rewrite touched_d in B1, B2, B3, B4, B5, B6, B7, B8.
       destruct ow; cbn [negb andb] in *.
       + destruct (meta_phase o ms sd T st4 i Hi) as (fs5 & Q1 & Q2). rewrite Q1.
-        eexists. split; [reflexivity|]. cbn [with_fs c_fs c_imap c_notifs c_stale].
+        eexists. split; [reflexivity|]. cbn [with_fs c_fs c_imap c_notifs].
         destruct (Fin (finfo o ms sd)) as (F1 & F2).
         { apply ftype_finfo. }
         { unfold e5, CopySpec.copied. rewrite HXT. cbn [sdent n]. rewrite Hd, Em. cbn [andb].
@@ -764,7 +786,7 @@ Section Node.
         split; [eapply Inv_fs_ext; [apply fs_eqv_sym; exact Q2|exact F1]|].
         split; [eapply Lk_names_ext; [|exact F2]; intro q; rewrite (fe_names _ _ Q2); reflexivity|]. tauto.
       + destruct tfi; [|congruence]. rewrite (time_phase o sd T st4 i Hi).
-        eexists. split; [reflexivity|]. cbn [with_fs c_fs c_imap c_notifs c_stale].
+        eexists. split; [reflexivity|]. cbn [with_fs c_fs c_imap c_notifs].
         destruct (Fin (set_mtime (info_time o sd))) as (F1 & F2).
         { apply ftype_set_mtime. }
         { unfold e5, CopySpec.copied. rewrite HXT. cbn [sdent n]. rewrite Hd, Em. cbn [andb].
@@ -798,7 +820,7 @@ Section Node.
       assert (HTok : x_isdir (X T) = true \/ exists P a, T = P ++ [a]).
       { left. unfold x_isdir. rewrite HXT. auto. }
       assert (Hns : forall s, x_key e <> KSrc s).
-      { intros s Hs. pose proof (lk_src_not_dir _ _ _ _ _ _ _ _ _ _ L0 HXT Hs). congruence. }
+      { intros s Hs. pose proof (lk_src_not_dir _ _ _ _ _ _ _ _ _ _ _ L0 HXT Hs). congruence. }
       unfold copy_dir_only. rewrite ELs, Htd. cbn [negb].
       destruct ow.
       + rewrite (upd_path_some _ _ _ _ Hi).
@@ -809,9 +831,9 @@ Section Node.
           - apply ftype_set_perm.
           - apply dm_set_perm; auto. }
         assert (L2 : Lk (upd_inode i (set_perm (perm12 sd)) (c_fs st)) (xupd T (Some e2) X) (c_imap st)).
-        { eapply (Lk_upd o ms multi sdof (c_fs st) _ _ _ T e e2 L0); auto. }
+        { eapply (Lk_upd o ms multi sdof S (c_fs st) _ _ _ T e e2 L0); auto. }
         destruct (dir_tail nm ino sd kids sc T true X (with_fs st (upd_inode i (set_perm (perm12 sd)) (c_fs st)))
-                    (xupd T (Some e2) X) e2 false (Some td)) as (st' & Q1 & Q2 & Q3 & Q4 & Q5 & Q6); auto.
+                    (xupd T (Some e2) X) e2 false (Some td)) as (st' & Q1 & Q2 & Q3 & Q4 & Q5); auto.
         * apply xupd_same.
         * cbn [e2 x_d]. rewrite <- (is_dir_ftype _ _ (eq_sym (ftype_set_perm (perm12 sd) (x_d e)))). auto.
         * intros b r. apply xupd_other, below_ne.
@@ -821,7 +843,7 @@ Section Node.
         * discriminate.
         * intros _. split; [discriminate|]. exists e. auto.
         * exists st'. split; auto.
-      + destruct (dir_tail nm ino sd kids sc T false X st X e false (Some td)) as (st' & Q1 & Q2 & Q3 & Q4 & Q5 & Q6); auto.
+      + destruct (dir_tail nm ino sd kids sc T false X st X e false (Some td)) as (st' & Q1 & Q2 & Q3 & Q4 & Q5); auto.
         * intros q Hq. unfold res. cbn [sdent]. rewrite Hd.
           unfold x_isdir. rewrite HXT, Em. cbn [andb]. symmetry. apply ov_unrel; auto.
         * unfold x_isdir. rewrite HXT, Em. auto.
@@ -831,7 +853,8 @@ Section Node.
     - (* the directory is created by this call *)
       destruct Htok as [(-> & _ & H0)|(P & a & -> & HP)]; [congruence|].
       set (T := P ++ [a]) in *.
-      destruct (step_remove sd P a st X I L0 Hpc HP) as (fs1 & E1 & I1 & L1). fold T in E1, I1, L1. rewrite E1, bind_ret.
+      destruct (step_remove sd P a st X I L0 Hpc HP) as (st1 & E1 & I1 & L1 & M1 & Hpc1 & N1). fold T in E1, I1, L1, M1, Hpc1. rewrite E1, bind_ret.
+      set (fs1 := c_fs st1) in *.
       set (removed := o_replace o && match X T with Some e => negb (is_dir sd && is_dir (x_d e)) | None => false end) in *.
       set (X1 := if removed then touch P (xrm T X) else X) in *.
       assert (HPT : T <> P) by apply snoc_ne_parent.
@@ -855,18 +878,18 @@ Section Node.
         apply touch_ext; apply xrm_unrel; auto. apply parent_unrel. }
       clearbody X1. clear removed.
       pose proof (inv_lstat _ _ _ T I1) as HL1. rewrite F2 in HL1.
-      unfold copy_dir_only. cbn [with_fs c_fs]. destruct (lstat fs1 T) eqn:ELs; [contradiction|].
+      unfold copy_dir_only. fold fs1. destruct (lstat fs1 T) eqn:ELs; [contradiction|].
       unfold k_mkdir.
       destruct (inv_k_new o _ _ P a (o_umask o) S_IFDIR (N.land (perm12 sd) 1023) 0 [] [] I1 F2 F1)
         as (fs2 & j & E2 & Hj & Hjd & Hn2 & Hi2 & Hu2 & Hf2 & I2).
       fold T in E2, Hn2, Hu2, Hf2, I2. rewrite E2.
       set (newd := new_dent (o_umask o) (inodes fs1 j) S_IFDIR (N.land (perm12 sd) 1023) 0 [] []) in *.
       specialize (I2 (xex newd (KNew T) false) (dm_xex _ _ _ _) (or_introl eq_refl)).
-      assert (L2 : Lk fs2 (xupd T (Some (xex newd (KNew T) false)) (touch P X1)) (c_imap st)).
-      { eapply (Lk_new o ms multi sdof fs1); eauto. }
-      destruct (dir_tail nm ino sd kids sc T ow X (with_fs st fs2)
+      assert (L2 : Lk fs2 (xupd T (Some (xex newd (KNew T) false)) (touch P X1)) (c_imap st1)).
+      { eapply (Lk_new o ms multi sdof S fs1); eauto. }
+      destruct (dir_tail nm ino sd kids sc T ow X (with_fs st1 fs2)
                   (xupd T (Some (xex newd (KNew T) false)) (touch P X1)) (xex newd (KNew T) false) true
-                  (lstat (c_fs st) T)) as (st' & Q1 & Q2 & Q3 & Q4 & Q5 & Q6); auto.
+                  (lstat (c_fs st) T)) as (st' & Q1 & Q2 & Q3 & Q4 & Q5); auto.
       + right. exists P, a. auto.
       + apply xupd_same.
       + cbn [xex x_d]. apply N.eqb_eq. unfold newd. apply ftype_new_dent. reflexivity.
@@ -883,7 +906,7 @@ Section Node.
       + rewrite Em. auto.
       + intros _. cbn [xex x_d x_key]. unfold newd. rewrite ftype_new_dent by reflexivity. repeat split; auto.
       + discriminate.
-      + exists st'. split; auto.
+      + exists st'. split; auto. split; auto. split; auto. split; [eapply IM_trans; eauto|]. rewrite Q5. cbn [with_fs c_notifs]. rewrite N1. reflexivity.
   Qed.
 
   Theorem copy_node_ok : forall n, wf_s n -> cons_s n -> node_ok n.
